@@ -1,27 +1,711 @@
 //! Read battery: every read path of a vector against the model (C08), with every byte
-//! fetched checked against the owning region's bounds (C20).
+//! fetched on its behalf checked against the owning region's bounds (C20).
+
+use std::collections::BTreeSet;
+
+use rawdb::verif::{Event, MMAP_CROSSOVER_CELL, set_threshold, threshold};
+use vecdb::{
+    AnyStoredVec, AnyVec, CachedVec, ReadableCloneableVec, ReadableVec, StoredVec, VecIndex,
+};
 
 use crate::{
-    seqx::Violation,
-    vecx::{Elem, Model, Subject},
+    seqx::{Violation, guarded},
+    tap,
+    vecx::{Elem, Model, Subject, VEC_NAME},
 };
 
 #[derive(Default)]
 pub struct Extra<T> {
-    pub results: Vec<(&'static str, Result<Vec<T>, String>)>,
+    /// (api, from, to, result) of stored-only range scans
+    pub ranges: Vec<(&'static str, usize, usize, Result<Vec<T>, String>)>,
+    /// (api, index, result) of stored-only point reads
+    pub points: Vec<(&'static str, usize, Result<Option<T>, String>)>,
 }
 
-pub fn raw_extra<V, T>(_v: &V, _from: usize, _to: usize, _out: &mut Extra<T>) {}
-pub fn comp_extra<V, T>(_v: &V, _from: usize, _to: usize, _out: &mut Extra<T>) {}
+pub fn raw_extra<I, T, S>(
+    v: &vecdb::ReadWriteRawVec<I, T, S>,
+    from: usize,
+    to: usize,
+    out: &mut Extra<T>,
+) where
+    I: VecIndex,
+    T: Elem,
+    S: vecdb::RawStrategy<T>,
+{
+    out.ranges.push((
+        "fold_stored_io",
+        from,
+        to,
+        guarded(|| {
+            v.fold_stored_io(from, to, Vec::new(), |mut a, x| {
+                a.push(x);
+                a
+            })
+        }),
+    ));
+    out.ranges.push((
+        "fold_stored_mmap",
+        from,
+        to,
+        guarded(|| {
+            v.fold_stored_mmap(from, to, Vec::new(), |mut a, x| {
+                a.push(x);
+                a
+            })
+        }),
+    ));
+    for i in [from, to] {
+        if i == usize::MAX {
+            continue;
+        }
+        out.points
+            .push(("vec_reader:try_get", i, guarded(|| v.reader().try_get(i))));
+        if i < v.stored_len() {
+            out.points
+                .push(("vec_reader:get", i, guarded(|| Some(v.reader().get(i)))));
+        }
+    }
+}
+
+/// Stored-only scans of a compressed vector (the inner type is not nameable from
+/// outside the crate, so this is a macro over the wrapper's deref'd methods).
+#[macro_export]
+macro_rules! comp_extra_body {
+    ($v:expr, $from:expr, $to:expr, $out:expr) => {{
+        let (v, from, to) = ($v, $from, $to);
+        $out.ranges.push((
+            "fold_stored_io",
+            from,
+            to,
+            $crate::seqx::guarded(|| {
+                v.fold_stored_io(from, to, Vec::new(), |mut a, x| {
+                    a.push(x);
+                    a
+                })
+            }),
+        ));
+        $out.ranges.push((
+            "fold_stored_mmap",
+            from,
+            to,
+            $crate::seqx::guarded(|| {
+                v.fold_stored_mmap(from, to, Vec::new(), |mut a, x| {
+                    a.push(x);
+                    a
+                })
+            }),
+        ));
+    }};
+}
+
+struct Ctx<'a> {
+    viols: Vec<Violation>,
+    calls: u64,
+    class: &'a str,
+    situation: &'a str,
+    /// (start, name) of the regions that belong to the vector
+    db: rawdb::Database,
+    seen_sigs: BTreeSet<String>,
+}
+
+impl<'a> Ctx<'a> {
+    fn push(&mut self, prop: &str, api: &str, div: &str, detail: String) {
+        let signature = format!("{}|read:{api}|{}|{div}", self.class, self.situation);
+        if self.seen_sigs.insert(signature.clone()) {
+            self.viols.push(Violation {
+                property: prop.into(),
+                signature,
+                detail,
+            });
+        }
+    }
+
+    /// C20: every Access event recorded during the call must lie within the current
+    /// length of a region of this vector.
+    fn check_accesses(&mut self, api: &str) {
+        let evs = tap::drain_log();
+        if evs.is_empty() {
+            return;
+        }
+        let names = [
+            format!("{VEC_NAME}/usize"),
+            format!("{VEC_NAME}/usize_pages"),
+            format!("{VEC_NAME}/usize_holes"),
+        ];
+        let regions: Vec<(usize, usize)> = names
+            .iter()
+            .filter_map(|n| self.db.get_region(n))
+            .map(|r| {
+                let m = r.meta();
+                (m.start(), m.len())
+            })
+            .collect();
+        for ev in evs {
+            if let Event::Access {
+                kind,
+                region_start,
+                off,
+                len,
+                ..
+            } = ev
+            {
+                match regions.iter().find(|(s, _)| *s == region_start) {
+                    None => self.push(
+                        "C20",
+                        api,
+                        "access_foreign_region",
+                        format!("{kind}: read at region start {region_start}, which is no region of this vector ({regions:?})"),
+                    ),
+                    Some((_, rlen)) => {
+                        if off.checked_add(len).is_none_or(|e| e > *rlen) {
+                            self.push(
+                                "C20",
+                                api,
+                                "access_beyond_region_len",
+                                format!("{kind}: bytes {off}..{} of a region whose length is {rlen}", off.wrapping_add(len)),
+                            );
+                        }
+                    }
+                }
+            }
+        }
+    }
+
+    fn call<R>(&mut self, api: &str, f: impl FnOnce() -> R) -> Option<R> {
+        self.calls += 1;
+        let r = guarded(f);
+        self.check_accesses(api);
+        match r {
+            Ok(v) => Some(v),
+            Err(p) => {
+                let loc = p.split(": ").next().unwrap_or("?").to_string();
+                self.push("C08", api, &format!("panic:{loc}"), p);
+                None
+            }
+        }
+    }
+
+    fn expect_eq<T: Elem>(&mut self, api: &str, what: &str, got: &[T], want: &[T]) {
+        if got.len() != want.len() || got.iter().zip(want).any(|(a, b)| a.bits() != b.bits()) {
+            let first = got
+                .iter()
+                .zip(want)
+                .position(|(a, b)| a.bits() != b.bits())
+                .unwrap_or(got.len().min(want.len()));
+            self.push(
+                "C08",
+                api,
+                "elements",
+                format!(
+                    "{what}: returned {} elements, expected {}; first difference at position {first}: {:?} vs {:?}",
+                    got.len(),
+                    want.len(),
+                    got.get(first),
+                    want.get(first)
+                ),
+            );
+        }
+    }
+
+    fn expect_opt<T: Elem>(&mut self, api: &str, what: &str, got: Option<T>, want: Option<T>) {
+        if got.map(|x| x.bits()) != want.map(|x| x.bits()) {
+            self.push(
+                "C08",
+                api,
+                "element",
+                format!("{what}: returned {got:?}, expected {want:?}"),
+            );
+        }
+    }
+}
+
+fn bounds(len: usize, stored: usize, page: usize, holes: &[usize]) -> Vec<usize> {
+    let mut b = BTreeSet::new();
+    for x in [0, 1, len, len + 1, stored, stored + 1, usize::MAX] {
+        b.insert(x);
+    }
+    if len > 0 {
+        b.insert(len - 1);
+    }
+    if stored > 0 {
+        b.insert(stored - 1);
+    }
+    if len >= page - 1 {
+        b.insert(page - 1);
+        b.insert(page);
+        b.insert(page + 1);
+    }
+    if let Some(h) = holes.first() {
+        b.insert(*h);
+        b.insert(h + 1);
+    }
+    b.into_iter().collect()
+}
+
+/// The generic ReadableVec battery on `v`; `contents[i]` is None for a deleted slot.
+fn generic<T: Elem, R: ReadableVec<usize, T>>(
+    cx: &mut Ctx,
+    tag: &str,
+    v: &R,
+    contents: &[Option<T>],
+    bset: &[usize],
+    // false: skip the cursor-based sorted reads (see `battery`)
+    index_reads_skip_holes: bool,
+) {
+    let len = contents.len();
+    let dense = |from: usize, to: usize| -> Vec<T> {
+        let f = from.min(len);
+        let t = to.min(len);
+        if f >= t {
+            vec![]
+        } else {
+            contents[f..t].iter().flatten().copied().collect()
+        }
+    };
+    let api = |s: &str| format!("{tag}{s}");
+
+    if let Some(l) = cx.call(&api("len"), || v.len()) {
+        if l != len {
+            cx.push("C08", &api("len"), "len", format!("len {l}, expected {len}"));
+            return;
+        }
+    }
+    // full pair set on the two workhorse entry points
+    for &from in bset {
+        for &to in bset {
+            let want = dense(from, to);
+            if let Some(got) = cx.call(&api("collect_range_at"), || v.collect_range_at(from, to)) {
+                cx.expect_eq(&api("collect_range_at"), &format!("[{from},{to})"), &got, &want);
+            }
+            if let Some(got) = cx.call(&api("fold_range_at"), || {
+                v.fold_range_at(from, to, Vec::new(), |mut a, x| {
+                    a.push(x);
+                    a
+                })
+            }) {
+                cx.expect_eq(&api("fold_range_at"), &format!("[{from},{to})"), &got, &want);
+            }
+        }
+    }
+    // reduced pair set on the remaining range APIs
+    let mut pairs: Vec<(usize, usize)> = vec![(0, len), (0, usize::MAX), (len, 0)];
+    for w in bset.windows(2) {
+        pairs.push((w[0], w[1]));
+        pairs.push((w[1], w[0]));
+    }
+    if bset.len() > 3 {
+        pairs.push((bset[1], bset[bset.len() - 2]));
+    }
+    for (from, to) in pairs {
+        let want = dense(from, to);
+        let what = format!("[{from},{to})");
+        if let Some(got) = cx.call(&api("collect_range_dyn"), || v.collect_range_dyn(from, to)) {
+            cx.expect_eq(&api("collect_range_dyn"), &what, &got, &want);
+        }
+        if let Some(got) = cx.call(&api("try_fold_range_at"), || {
+            v.try_fold_range_at(from, to, Vec::new(), |mut a, x| {
+                a.push(x);
+                Ok::<_, ()>(a)
+            })
+        }) {
+            cx.expect_eq(&api("try_fold_range_at"), &what, &got.unwrap_or_default(), &want);
+        }
+        // early exit after two elements
+        if let Some(got) = cx.call(&api("try_fold_range_at:early_exit"), || {
+            let mut seen = Vec::new();
+            let _ = v.try_fold_range_at(from, to, 0usize, |n, x| {
+                seen.push(x);
+                if n + 1 >= 2 { Err(()) } else { Ok(n + 1) }
+            });
+            seen
+        }) {
+            let w: Vec<T> = want.iter().take(2).copied().collect();
+            cx.expect_eq(&api("try_fold_range_at:early_exit"), &what, &got, &w);
+        }
+        if let Some(got) = cx.call(&api("for_each_range_at"), || {
+            let mut a = Vec::new();
+            v.for_each_range_at(from, to, |x| a.push(x));
+            a
+        }) {
+            cx.expect_eq(&api("for_each_range_at"), &what, &got, &want);
+        }
+        if let Some(got) = cx.call(&api("for_each_range_dyn_at"), || {
+            let mut a = Vec::new();
+            v.for_each_range_dyn_at(from, to, &mut |x| a.push(x));
+            a
+        }) {
+            cx.expect_eq(&api("for_each_range_dyn_at"), &what, &got, &want);
+        }
+        if let Some(got) = cx.call(&api("read_into_at"), || {
+            let mut a = vec![T::make(424242)];
+            v.read_into_at(from, to, &mut a);
+            a
+        }) {
+            let mut w = vec![T::make(424242)];
+            w.extend(want.iter().copied());
+            cx.expect_eq(&api("read_into_at"), &what, &got, &w);
+        }
+        if let Some(got) = cx.call(&api("min_at"), || v.min_at(from, to)) {
+            let w = want.iter().copied().fold(None, |a: Option<T>, x| match a {
+                Some(c) if c <= x => Some(c),
+                _ => Some(x),
+            });
+            cx.expect_opt(&api("min_at"), &what, got, w);
+        }
+        if let Some(got) = cx.call(&api("max_dyn"), || v.max_dyn(from, to)) {
+            let w = want.iter().copied().fold(None, |a: Option<T>, x| match a {
+                Some(c) if c >= x => Some(c),
+                _ => Some(x),
+            });
+            cx.expect_opt(&api("max_dyn"), &what, got, w);
+        }
+    }
+    // whole-vector conveniences
+    let all = dense(0, len);
+    if let Some(got) = cx.call(&api("collect"), || v.collect()) {
+        cx.expect_eq(&api("collect"), "all", &got, &all);
+    }
+    if let Some(got) = cx.call(&api("collect_dyn"), || v.collect_dyn()) {
+        cx.expect_eq(&api("collect_dyn"), "all", &got, &all);
+    }
+    if let Some(got) = cx.call(&api("fold"), || {
+        v.fold(Vec::new(), |mut a, x| {
+            a.push(x);
+            a
+        })
+    }) {
+        cx.expect_eq(&api("fold"), "all", &got, &all);
+    }
+    if let Some(got) = cx.call(&api("for_each"), || {
+        let mut a = Vec::new();
+        v.for_each(|x| a.push(x));
+        a
+    }) {
+        cx.expect_eq(&api("for_each"), "all", &got, &all);
+    }
+    for (f, t) in [(Some(-1i64), None), (None, Some(-1)), (Some(-3), Some(-1)), (Some(1), Some(2))] {
+        let conv = |i: i64| -> usize {
+            if i >= 0 {
+                (i as usize).min(len)
+            } else {
+                (len as i64 + i).max(0) as usize
+            }
+        };
+        let want = dense(f.map_or(0, conv), t.map_or(len, conv));
+        if let Some(got) = cx.call(&api("collect_signed_range"), || v.collect_signed_range(f, t)) {
+            cx.expect_eq(&api("collect_signed_range"), &format!("{f:?}..{t:?}"), &got, &want);
+        }
+    }
+    // index-addressed reads
+    let at = |i: usize| -> Option<T> { contents.get(i).copied().flatten() };
+    for &i in bset {
+        if let Some(got) = cx.call(&api("collect_one_at"), || v.collect_one_at(i)) {
+            cx.expect_opt(&api("collect_one_at"), &format!("index {i}"), got, at(i));
+        }
+    }
+    if let Some(got) = cx.call(&api("collect_first"), || v.collect_first()) {
+        cx.expect_opt(&api("collect_first"), "first", got, at(0));
+    }
+    if let Some(got) = cx.call(&api("collect_last"), || v.collect_last()) {
+        cx.expect_opt(&api("collect_last"), "last", got, len.checked_sub(1).and_then(at));
+    }
+    // sorted reads: all subsets of (up to) six boundary indices
+    let mut six: Vec<usize> = bset.iter().copied().filter(|i| *i != usize::MAX).collect();
+    if six.len() > 6 {
+        let keep = [0, 1, six.len() / 2, six.len() - 3, six.len() - 2, six.len() - 1];
+        six = keep.iter().map(|k| six[*k]).collect::<BTreeSet<_>>().into_iter().collect();
+    }
+    for mask in 0u32..(1 << six.len()) {
+        if !index_reads_skip_holes {
+            break;
+        }
+        let idx: Vec<usize> = six
+            .iter()
+            .enumerate()
+            .filter(|(k, _)| mask & (1 << k) != 0)
+            .map(|(_, i)| *i)
+            .collect();
+        let want: Vec<T> = idx.iter().filter_map(|i| at(*i)).collect();
+        if let Some(got) = cx.call(&api("read_sorted_at"), || v.read_sorted_at(&idx)) {
+            cx.expect_eq(&api("read_sorted_at"), &format!("indices {idx:?}"), &got, &want);
+        }
+    }
+}
+
+/// Cursor API (needs `Sized`).
+fn cursor_checks<T: Elem, R: ReadableVec<usize, T>>(
+    cx: &mut Ctx,
+    tag: &str,
+    v: &R,
+    contents: &[Option<T>],
+    bset: &[usize],
+) {
+    let len = contents.len();
+    let all: Vec<T> = contents.iter().flatten().copied().collect();
+    let api = |s: &str| format!("{tag}{s}");
+    if let Some(got) = cx.call(&api("cursor:next"), || {
+        let mut c = v.cursor();
+        let mut a = Vec::new();
+        let mut guard = 0;
+        while let Some(x) = c.next() {
+            a.push(x);
+            guard += 1;
+            if guard > len + 2 {
+                break;
+            }
+        }
+        a
+    }) {
+        cx.expect_eq(&api("cursor:next"), "all", &got, &all);
+    }
+    for &i in bset {
+        if let Some(got) = cx.call(&api("cursor:get"), || v.cursor().get(i)) {
+            cx.expect_opt(
+                &api("cursor:get"),
+                &format!("index {i}"),
+                got,
+                contents.get(i).copied().flatten(),
+            );
+        }
+    }
+    for &skip in bset.iter().filter(|i| **i <= len + 1) {
+        if let Some(got) = cx.call(&api("cursor:advance+fold"), || {
+            let mut c = v.cursor();
+            c.advance(skip);
+            c.fold(3, Vec::new(), |mut a, x| {
+                a.push(x);
+                a
+            })
+        }) {
+            // only defined without deleted slots (positions and indices coincide)
+            if contents.iter().all(|x| x.is_some()) {
+                let f = skip.min(len);
+                let t = (f + 3).min(len);
+                let want: Vec<T> = contents[f..t].iter().flatten().copied().collect();
+                cx.expect_eq(&api("cursor:advance+fold"), &format!("skip {skip}"), &got, &want);
+            }
+        }
+    }
+}
 
 pub fn battery<V: Subject>(
-    _v: &V,
-    _m: &Model<V::T>,
-    _class: &str,
-    _situation: &str,
+    v: &V,
+    m: &Model<V::T>,
+    class: &str,
+    situation: &str,
+    holed_cursor: bool,
 ) -> (Vec<Violation>, u64)
 where
     V::T: Elem,
 {
-    (Vec::new(), 0)
+    let mut cx = Ctx {
+        viols: Vec::new(),
+        calls: 0,
+        class,
+        situation,
+        db: v.db(),
+        seen_sigs: BTreeSet::new(),
+    };
+    let len = m.items.len();
+    let stored = v.stored_len().min(len + 1);
+    let page = 16 * 1024 / size_of::<V::T>();
+    let holes = m.holes();
+    let bset = bounds(len, stored, page, &holes);
+
+    tap::start_log();
+    let _ = tap::drain_log();
+
+    // --- the vector itself (sees buffered values, updates and deletions)
+    // Cursor-based paths (cursor, default read_sorted) loop forever or panic on vectors with
+    // deleted slots (F8); they are exercised there only in the dedicated exploration.
+    let cursor_ok = holes.is_empty() || holed_cursor;
+    generic(&mut cx, "", v, &m.items, &bset, cursor_ok);
+    if cursor_ok {
+        cursor_checks(&mut cx, "", v, &m.items, &bset);
+    }
+
+    // --- stored-only views: compared with the stored layer as of the last write
+    let stored_known = !m.stored_uncertain;
+    let stored_contents: Vec<Option<V::T>> = m
+        .stored_items
+        .iter()
+        .take(m.stored)
+        .map(|x| Some(*x))
+        .collect();
+    let sb = bounds(stored_contents.len(), stored_contents.len(), page, &[]);
+    {
+        let ro = v.read_only_clone();
+        if stored_known {
+            generic(&mut cx, "ro_clone:", &ro, &stored_contents, &sb, true);
+            cursor_checks(&mut cx, "ro_clone:", &ro, &stored_contents, &sb);
+        } else {
+            // contents are not compared (the model does not know the stored layer after a
+            // rollback), but the reads are still issued: panics and out-of-region accesses
+            // are judged
+            let l = ro.len();
+            for &(f, t) in &[(0usize, l), (0, usize::MAX), (l.saturating_sub(1), l)] {
+                cx.call("ro_clone:collect_range_at", || ro.collect_range_at(f, t));
+                cx.call("ro_clone:fold_range_at", || ro.fold_range_at(f, t, 0usize, |a, _| a + 1));
+            }
+            for i in [0, l.saturating_sub(1), l] {
+                cx.call("ro_clone:collect_one_at", || ro.collect_one_at(i));
+            }
+        }
+        // cached wrapper over the read-only clone
+        let cached = CachedVec::wrap(ro.clone());
+        if stored_known {
+            if let Some(got) = cx.call("cached:cached", || cached.cached().to_vec()) {
+                let want: Vec<V::T> = stored_contents.iter().flatten().copied().collect();
+                cx.expect_eq("cached:cached", "all", &got, &want);
+            }
+            for &i in &sb {
+                if let Some(got) = cx.call("cached:get_at", || cached.get_at(i)) {
+                    cx.expect_opt(
+                        "cached:get_at",
+                        &format!("index {i}"),
+                        got,
+                        stored_contents.get(i).copied().flatten(),
+                    );
+                }
+            }
+            generic(&mut cx, "cached:", &cached, &stored_contents, &sb[..sb.len().min(5)], true);
+        }
+    }
+    {
+        let boxed = v.read_only_boxed_clone();
+        if stored_known {
+            let want: Vec<V::T> = stored_contents.iter().flatten().copied().collect();
+            if let Some(got) = cx.call("ro_boxed:collect_dyn", || boxed.collect_dyn()) {
+                cx.expect_eq("ro_boxed:collect_dyn", "all", &got, &want);
+            }
+            for &i in &sb {
+                if let Some(got) = cx.call("ro_boxed:collect_one_at", || boxed.collect_one_at(i)) {
+                    cx.expect_opt(
+                        "ro_boxed:collect_one_at",
+                        &format!("index {i}"),
+                        got,
+                        stored_contents.get(i).copied().flatten(),
+                    );
+                }
+            }
+        } else {
+            cx.call("ro_boxed:collect_dyn", || boxed.collect_dyn());
+        }
+    }
+
+    // --- format-specific stored-only paths
+    let mut extra = Extra::default();
+    let pairs: Vec<(usize, usize)> = {
+        let mut p = vec![(0, usize::MAX)];
+        for w in sb.windows(2) {
+            p.push((w[0], w[1]));
+        }
+        p.push((sb[sb.len() / 2], sb[0]));
+        p
+    };
+    for (f, t) in pairs {
+        v.s_extra_reads(f, t, &mut extra);
+        cx.check_accesses("stored_only");
+    }
+    cx.calls += (extra.ranges.len() + extra.points.len()) as u64;
+    for (api, f, t, r) in extra.ranges {
+        match r {
+            Err(p) => {
+                let loc = p.split(": ").next().unwrap_or("?").to_string();
+                cx.push("C08", api, &format!("panic:{loc}"), p);
+            }
+            Ok(got) => {
+                if stored_known {
+                    let n = stored_contents.len();
+                    let (a, b) = (f.min(n), t.min(n));
+                    let want: Vec<V::T> = if a < b {
+                        stored_contents[a..b].iter().flatten().copied().collect()
+                    } else {
+                        vec![]
+                    };
+                    cx.expect_eq(api, &format!("[{f},{t})"), &got, &want);
+                }
+            }
+        }
+    }
+    for (api, i, r) in extra.points {
+        match r {
+            Err(p) => {
+                let loc = p.split(": ").next().unwrap_or("?").to_string();
+                cx.push("C08", api, &format!("panic:{loc}"), p);
+            }
+            Ok(got) => {
+                if stored_known {
+                    cx.expect_opt(
+                        api,
+                        &format!("index {i}"),
+                        got,
+                        stored_contents.get(i).copied().flatten(),
+                    );
+                }
+            }
+        }
+    }
+
+    // --- the generic entry points again through the file-IO back-end
+    let saved = threshold(MMAP_CROSSOVER_CELL);
+    set_threshold(MMAP_CROSSOVER_CELL, 8);
+    {
+        let dense = |from: usize, to: usize, c: &[Option<V::T>]| -> Vec<V::T> {
+            let n = c.len();
+            let (a, b) = (from.min(n), to.min(n));
+            if a < b {
+                c[a..b].iter().flatten().copied().collect()
+            } else {
+                vec![]
+            }
+        };
+        let mut pairs = vec![(0, usize::MAX)];
+        for w in bset.windows(2) {
+            pairs.push((w[0], w[1]));
+        }
+        let ro = v.read_only_clone();
+        for (f, t) in pairs {
+            if let Some(got) = cx.call("io_backend:fold_range_at", || {
+                v.fold_range_at(f, t, Vec::new(), |mut a, x| {
+                    a.push(x);
+                    a
+                })
+            }) {
+                cx.expect_eq("io_backend:fold_range_at", &format!("[{f},{t})"), &got, &dense(f, t, &m.items));
+            }
+            if let Some(got) = cx.call("io_backend:try_fold_range_at", || {
+                v.try_fold_range_at(f, t, Vec::new(), |mut a, x| {
+                    a.push(x);
+                    Ok::<_, ()>(a)
+                })
+            }) {
+                cx.expect_eq(
+                    "io_backend:try_fold_range_at",
+                    &format!("[{f},{t})"),
+                    &got.unwrap_or_default(),
+                    &dense(f, t, &m.items),
+                );
+            }
+            if let Some(got) = cx.call("io_backend:ro_clone:fold_range_at", || {
+                ro.fold_range_at(f, t, Vec::new(), |mut a, x| {
+                    a.push(x);
+                    a
+                })
+            }) {
+                if stored_known {
+                    cx.expect_eq(
+                        "io_backend:ro_clone:fold_range_at",
+                        &format!("[{f},{t})"),
+                        &got,
+                        &dense(f, t, &stored_contents),
+                    );
+                }
+            }
+        }
+    }
+    set_threshold(MMAP_CROSSOVER_CELL, saved);
+    let _ = tap::take_log();
+
+    (cx.viols, cx.calls)
 }
